@@ -1,9 +1,45 @@
-(* C02 — per-partition submission order survives retries.  Property statements only. *)
+(* C02 — per-partition submission order survives retries.  Property statements only.
+   Model: C02/Model.v (one partition's path through the non-idempotent async producer: partition worker with
+   highWatermark / retryState, any number of broker workers with one outstanding request each, retry queue, FIFO
+   channels, the simulated partition log).  [run mx sched] is the state after the schedule [sched] (arbitrary
+   interleaving of: submit, retry-handler forward, rejection on the way, partition-worker iteration with arbitrary
+   leader lookups and worker choice, broker-worker receive / flush / response, cluster answers ok / retriable /
+   fatal / connection error with or without append) with Producer.Retry.Max = mx. *)
 From Coq Require Import List Arith Bool ZArith.
-From SV Require Import C02.Model C02.Defs C02.Refuted C02.Proofs C02.Coarse.
+From SV Require Import C02.Model C02.Defs C02.Refuted C02.Proofs C02.Retry0 C02.Coarse.
 Import ListNotations.
 
-(* The defect announced by the property, on the model: Retry.Max = 0, a fatal answer, one message in the abandoned
+(* Core invariant: the logical list of the partition's undelivered data messages (C02/Defs.v: by virtual retry level,
+   highest first; within a level: accepted by the current worker, parked, on the way back, still to be bounced) is
+   sorted by submission index in every reachable state, for every Retry.Max >= 1 and every schedule. *)
+Theorem c02_logical_order : forall mx sched, (1 <= mx)%nat -> sorted (logical mx (run mx sched)).
+Proof. exact logical_order. Qed.
+Print Assumptions c02_logical_order.
+
+(* the messages the current worker has accepted, in sending order, are the head of that list *)
+Theorem c02_accepted_is_head : forall mx sched, (1 <= mx)%nat ->
+  exists R, logical mx (run mx sched) = map fst (acc (cur_bp (run mx sched))) ++ R.
+Proof. exact accepted_is_head. Qed.
+Print Assumptions c02_accepted_is_head.
+
+(* first copies appear in the partition log in submission order *)
+Theorem c02_first_copies_ordered : forall mx sched, (1 <= mx)%nat ->
+  increasing (first_copies (log (run mx sched))) = true.
+Proof. exact first_copies_ordered. Qed.
+Print Assumptions c02_first_copies_ordered.
+
+(* of two successes the earlier-submitted has the smaller offset *)
+Theorem c02_success_offsets_ordered : forall mx sched, (1 <= mx)%nat ->
+  succ_ordered (succ (run mx sched)) = true.
+Proof. exact success_offsets_ordered. Qed.
+Print Assumptions c02_success_offsets_ordered.
+
+(* no run-time panic of partitionProducer.dispatch (nil brokerProducer in newHighWatermark, retryState index) *)
+Theorem c02_no_panic : forall mx sched, (1 <= mx)%nat -> crash (run mx sched) = None.
+Proof. exact no_panic. Qed.
+Print Assumptions c02_no_panic.
+
+(* Retry.Max = 0: the defect announced by the property, on the model: a fatal answer, one message in the abandoned
    worker's backlog, a fresh message after the partition worker noticed `abandoned`: log [2; 1]. *)
 Theorem c02_retry0_refuted :
   exists sched, crash (run 0%nat sched) = None /\
@@ -11,6 +47,12 @@ Theorem c02_retry0_refuted :
     increasing (first_copies (log (run 0%nat sched))) = false /\ succ_ordered (succ (run 0%nat sched)) = false.
 Proof. exact retry0_refuted. Qed.
 Print Assumptions c02_retry0_refuted.
+
+(* Retry.Max = 0 on histories in which no abandoned broker worker holds messages it will still send *)
+Theorem c02_retry0_partial : forall sched,
+  (forall k, quiet (run 0%nat (firstn k sched))) -> order_ok (run 0%nat sched) = true.
+Proof. exact retry0_partial. Qed.
+Print Assumptions c02_retry0_partial.
 
 (* the shared composition (unbounded bridge queue) is too coarse for ordering *)
 Theorem c02_shared_composition_too_coarse :
